@@ -431,12 +431,22 @@ func c07Readers(c *Ctx, pcType *types.TypeName) {
 	blocks := mayBlockFns(c)
 	missU := Extract("1", Op("lookup", "", Field("u", Any())))
 	missM := Extract("1", Op("lookup", "", Field("m", Any())))
+	// the provider a read is about: the function's peer.ID parameter
+	keyOf := func(fn *ssa.Function) *ssa.Parameter {
+		for _, p := range fn.Params {
+			if strings.HasSuffix(p.Type().String(), "peer.ID") {
+				return p
+			}
+		}
+		return nil
+	}
 	var visit func(reader string, fn *ssa.Function, seen map[*ssa.Function]bool)
 	visit = func(reader string, fn *ssa.Function, seen map[*ssa.Function]bool) {
 		if seen[fn] {
 			return
 		}
 		seen[fn] = true
+		key := keyOf(fn)
 		// direct blocking operations in a reader-side function
 		for _, op := range c.BlockingOps(fn) {
 			if isInGoLit(op.Fn) {
@@ -465,6 +475,18 @@ func c07Readers(c *Ctx, pcType *types.TypeName) {
 			why, blocking := blocks[sc]
 			if !blocking {
 				return
+			}
+			// a may-block step on the read path is about the provider being read, not about another one (a read
+			// of a cached provider must not wait because some other provider is missing)
+			if ck := keyOf(sc); ck != nil && sc.Pkg == fn.Pkg {
+				for i, p := range sc.Params {
+					if p != ck || i >= len(ci.Common().Args) {
+						continue
+					}
+					if key == nil || ci.Common().Args[i] != ssa.Value(key) {
+						c.Bad("C07.v-readers-never-wait", reader+" › "+c.short(fn.String())+" → "+c.short(sc.String())+" › same provider", in.Pos(), "the read path looks up another provider ("+abbreviate(c.E(ci.Common().Args[i]).String())+") through a routine that may wait ("+why+"): reading a cached provider waits for the write lock whenever that other provider is not cached")
+					}
+				}
 			}
 			_, g1 := c.Guarded(in, missU, false)
 			_, g2 := c.Guarded(in, missM, false)
